@@ -641,6 +641,11 @@ def register(M):
     E['functools.update_wrapper'] = lambda it, a, k, n: _update_wrapper(a[0], a[1], n)
     E['functools.wraps'] = lambda it, a, k, n: PyCallable(lambda it2, a2, k2, n2, _w=a[0]: _update_wrapper(a2[0], _w, n2), 'wraps(...)')
 
+    E['inspect.isfunction'] = lambda it, a, k, n: isinstance(a[0], FuncVal)
+    E['inspect.ismethod'] = lambda it, a, k, n: isinstance(a[0], BoundMethod)
+    E['inspect.isclass'] = lambda it, a, k, n: isinstance(a[0], ClassVal) or (isinstance(a[0], ExtRef) and a[0].path.split('.')[-1][:1].isupper())
+    E['inspect.ismodule'] = lambda it, a, k, n: type(a[0]).__name__ == 'ModuleNS' or (isinstance(a[0], ExtRef) and a[0].path in ('numpy', 'pandas', 'logging', 'warnings'))
+
     @ext('inspect.unwrap')
     def _unwrap(interp, args, kw, node):
         f = args[0]
